@@ -379,18 +379,22 @@ def _derives_from(defs, sieve, base):
 def _domain_by_meaning(ctx, closure, defs, f, base, others=()):
     from ..condeval import outcomes, ev, Unknown
     from .common import dead_edge_labels
+    # every literal table gets its own marker element, so that two tables with equal contents stay
+    # distinguishable (checking a setting against the WRONG table must not pass)
     consts = {}
     for name, node in defs.items():
         try:
             v = ev(node, dict(consts))
             hash(v)
+            if isinstance(node, (ast.List, ast.Tuple)) and isinstance(v, tuple):
+                v = v + ("\x00in-" + name,)
             consts[name] = v
         except (Unknown, TypeError, AttributeError, KeyError, IndexError):
             continue
     dom = consts.get(base)
     if not isinstance(dom, tuple) or not dom:
         return False
-    bogus, good = ("\x00no-such-value",), (dom[0],)
+    bogus, good = ("\x00no-such-value",), ("\x00in-" + base,) if ("\x00in-" + base) in dom else (dom[0],)
     for fi in closure:
         g = ctx.an.cfg(fi)
         if not any(isinstance(x, ast.Attribute) and x.attr == f for x in ast.walk(fi.node)):
